@@ -153,6 +153,6 @@ def parse_annotation(node: ast.expr | None, *, self_cls: str | None = None, know
         if base in ("Callable",):
             return obj("function")
         if base in ("SimpleQueue",):
-            return obj("SimpleQueue")
+            return Ty("obj", (sub[0],), cls="SimpleQueue")  # element type kept for get_nowait()
         return ANY
     return ANY
